@@ -534,7 +534,9 @@ def _static_newton_cg(
             )
         status = jnp.where(jnp.isnan(energy), -1, status)
         conditional_raise(jnp.isnan(energy), ValueError("energy is NaN"))
-        min_cond = (ret_ls["iteration"] < 2) & (i > miniter)
+        # `ret_ls["iteration"]` counts trials (1-based) whereas the eager
+        # variant compares the 0-based trial index `naive_ls_it < 2`
+        min_cond = (ret_ls["iteration"] <= 2) & (i > miniter)
         status = jnp.where(
             (0.0 <= energy_diff)
             & (False if absdelta is None else (energy_diff < absdelta))
